@@ -276,13 +276,13 @@ def scope_tasks(tier):
     q = tier == "quick"
     fx = tla_set(repaired() & set(SCOPE_DEVS))
     t = {
-        "mc": (["gen4", "focus6", "nop", "db", "incl"], "QuickFamily", fx, "InvAll Dump") if q else
-              (["free5", "full4", "focus7", "nop4", "db4", "incl4"], "FullFamily", fx, "InvAll Dump"),
+        "mc": (["gen4", "focus6", "nop", "db", "incl"], "QuickFamily", fx, "InvAllDump") if q else
+              (["free5", "full4", "focus7", "nop4", "db4", "incl4"], "FullFamily", fx, "InvAllDump"),
         "mc_fixed": (["gen", "incl"] if q else ["full4", "incl4"], "QuickFamily" if q else "FullFamily", ALLFIXED, "InvAll NoCrash"),
         "dev_uninit": (["gen"], "QuickFamily", "{}", "NoGlobCopyUninit"), "dev_replaces": (["gen"], "QuickFamily", "{}", "NoGlobCopyReplaces"),
         "dev_crash": (["gen"], "QuickFamily", "{}", "NoCrash"), "dev_core": (["incl"], "QuickFamily", "{}", "NoCoreNotHidden"),
     }
-    return [("scope:" + n, "MacroScope_MC", _cfg_text(*t[n]), (4 if q else 8) if n == "mc" else 2, ("MS",)) for n, _ in SCOPE_MC[tier]]
+    return [("scope:" + n, "MacroScope_MC", _cfg_text(*t[n]), (6 if q else 8) if n == "mc" else 2, ("MS",)) for n, _ in SCOPE_MC[tier]]
 
 
 # ---------------------------------------------------------------------------------------------------------------
@@ -427,7 +427,7 @@ def run(rep, bld, tier):
 
     def one(t):
         name, mod, text, workers, tags = t
-        return name, tlc.run(mod, _write_cfg(name, text), workers=workers, timeout=1500, mem="3g", tags=tags)
+        return name, tlc.run(mod, _write_cfg(name, text), workers=workers, timeout=2400, mem="4g", tags=tags)
     with Phase("macscope: %d TLC runs" % len(tasks)):
         results = dict(pmap(one, tasks, workers=6))
     log("[macscope tlc] " + " ".join("%s=%.0fs" % (n, r.wall) for n, r in results.items()))
@@ -450,3 +450,27 @@ def replay(path, v):
     log("image: %s" % (_clip(image_of(res)),))
     log("recorded: %s" % v["what"])
     return 0
+
+
+MUTATIONS = """
+Each mutation was applied to a scratch copy of the unfixed /repo (VERIF_REPO=/tmp/gms-mN VERIF_CACHE_KEEP=30); the phase
+was run on it (quick tier; the full `./check C11 --tier quick` ends with the same VIOLATION lines since the phase is its
+last step) and the mutant's own ctest result recorded:
+  m1 asmmac.c FoundMacroByName: the enclosing sections are searched BEFORE the current one (outer definition wins)
+        -> VIOLATION (239 programs; first seen with 4 statements: def / SECTION / def / call)        (ctest 201/201)
+        Missed by the first version of the quick tier, which printed programs of <= 3 statements only: family gen4
+        (<= 4) and focus6 (<= 6 statements over few statement kinds) were added for it.
+  m2 as.c ReadMacro: a macro defined inside a macro body goes to the global level instead of the section of the call
+        -> VIOLATION (387 programs: error 1815 expected / not expected, body found outside the section)  (ctest 201/201)
+  m3 as.c Produce_Code: '!' no longer suppresses the macro search
+        -> VIOLATION (714 programs: `!aa` expands the macro instead of error 1200, `!nop` expands)    (ctest 200/201)
+  m4 asmallg.c CodeBINCLUDE: a short read is reported only when nothing at all was read (length beyond the end is
+     silently truncated)
+        -> VIOLATION (90 cases of the BINCLUDE grid: error 1600 expected, exit 0)                     (ctest 201/201)
+  m5 asmmac.c MacroAdder: a second definition for the same section replaces the first one without error 1815
+        -> VIOLATION (3888 programs)                                                                   (ctest 201/201)
+Specification side: FoundKey with the stack walked before the current section -> TLC refutes InvAll after 84 states
+(def / SECTION / def: TableIsInnermostKnown, no call needed).
+Both proposed fixes applied (scratch copy, VERIF_MACSCOPE_FIXED=GlobCopyUninit,GlobCopyReplaces,EmptyWindowAtZero): 0
+mismatches, no known finding hit, 201/201 golden tests.
+"""
